@@ -424,6 +424,86 @@ def neg (a : Src) : Src := a.withData (a.data.map fun v => -v)
 def arithScalar (op : Op) (a : Src) (x : Rat) (reversed : Bool) : Src :=
   a.withData (a.data.map fun v => if reversed then op.apply x v else op.apply v x)
 
+/-! ### arithmetic with IEEE division by zero (strengthening round H)
+
+Photon counts are full of zeros; `a / b` on such channels is numpy's IEEE division: `x / 0 = ±inf` for `x ≠ 0` and
+`0 / 0 = nan`, and these values propagate through a chain of operators.  `Rat` has no such values (`x / 0 = 0`), so
+the protocol answers are computed over `XVal`.  Signed zeros are not modelled: every DIVISOR of the operators below
+is a source channel or a scalar handed in by the harness, which only ever holds `+0.0`. -/
+
+inductive XVal where
+  | fin (q : Rat) | pinf | ninf | nan
+deriving Repr, DecidableEq
+
+/-- the infinity carrying the sign of `x`; `nan` for `x = 0` (`x / 0`, `inf * x`) -/
+def XVal.ofSign (x : Rat) : XVal := if 0 < x then .pinf else if x < 0 then .ninf else .nan
+
+def XVal.neg : XVal → XVal
+  | .fin q => .fin (-q) | .pinf => .ninf | .ninf => .pinf | .nan => .nan
+
+def XVal.add : XVal → XVal → XVal
+  | .nan, _ => .nan
+  | _, .nan => .nan
+  | .fin x, .fin y => .fin (x + y)
+  | .pinf, .ninf => .nan
+  | .ninf, .pinf => .nan
+  | .pinf, _ => .pinf
+  | _, .pinf => .pinf
+  | .ninf, _ => .ninf
+  | _, .ninf => .ninf
+
+def XVal.mul : XVal → XVal → XVal
+  | .nan, _ => .nan
+  | _, .nan => .nan
+  | .fin x, .fin y => .fin (x * y)
+  | .fin x, .pinf => .ofSign x
+  | .fin x, .ninf => .ofSign (-x)
+  | .pinf, .fin y => .ofSign y
+  | .ninf, .fin y => .ofSign (-y)
+  | .pinf, .pinf => .pinf
+  | .ninf, .ninf => .pinf
+  | .pinf, .ninf => .ninf
+  | .ninf, .pinf => .ninf
+
+/-- IEEE division; a zero divisor is `+0.0`. -/
+def XVal.div : XVal → XVal → XVal
+  | .nan, _ => .nan
+  | _, .nan => .nan
+  | .fin x, .fin y => if y = 0 then .ofSign x else .fin (x / y)
+  | .fin _, .pinf => .fin 0
+  | .fin _, .ninf => .fin 0
+  | .pinf, .fin y => if y < 0 then .ninf else .pinf
+  | .ninf, .fin y => if y < 0 then .pinf else .ninf
+  | .pinf, .pinf => .nan
+  | .pinf, .ninf => .nan
+  | .ninf, .pinf => .nan
+  | .ninf, .ninf => .nan
+
+def Op.applyX : Op → XVal → XVal → XVal
+  | .add, x, y => x.add y
+  | .sub, x, y => x.add y.neg
+  | .mul, x, y => x.mul y
+  | .div, x, y => x.div y
+
+/-- a channel whose samples may be `±inf` / `nan`: what an operator returns -/
+structure XChan where
+  ts : List Int
+  data : List XVal
+deriving Repr, DecidableEq
+
+def XChan.samples (c : XChan) : List (Int × XVal) := c.ts.zip c.data
+
+def Src.toX (s : Src) : XChan := ⟨s.timestamps, s.data.map .fin⟩
+
+/-- `a <op> b` with numpy's values for a zero divisor; refusal as in `arith`. -/
+def arithX (op : Op) (a b : XChan) : Except Err XChan :=
+  if b.ts ≠ a.ts then .error .runtime
+  else .ok ⟨a.ts, List.zipWith op.applyX a.data b.data⟩
+
+/-- `a <op> x` / `x <op> a` for a scalar, with numpy's values for a zero divisor. -/
+def arithScalarX (op : Op) (a : XChan) (x : Rat) (reversed : Bool) : XChan :=
+  ⟨a.ts, a.data.map fun v => if reversed then op.applyX (.fin x) v else op.applyX v (.fin x)⟩
+
 /-! ### the five reductions of the property text -/
 
 inductive Reduce where
@@ -457,6 +537,12 @@ def showErr : Err → String
 
 def showSamples (l : List Sample) : String :=
   showList (fun (s : Sample) => toString s.1 ++ ":" ++ showRat s.2) l
+
+def showX : XVal → String
+  | .fin q => showRat q | .pinf => "inf" | .ninf => "-inf" | .nan => "nan"
+
+def showXSamples (l : List (Int × XVal)) : String :=
+  showList (fun (s : Int × XVal) => toString s.1 ++ ":" ++ showX s.2) l
 
 def reduce? : String → Option Reduce
   | "mean" => some .mean | "sum" => some .sum | "min" => some .min | "max" => some .max
@@ -563,7 +649,7 @@ def handleWin (isTo : Bool) (rest : List String) : Option String :=
   `c04.by   <src> <reduce> <k>`
   `c04.like <src> <reduce> <refsrc>`          values of empty windows are printed as `E`
   `c04.likepw <src> <reduce> <refsrc>`        the code as it is now (per-window start index, repair of F9); this is the op the harness runs
-  `c04.arith <op> <srcA> <srcB>`
+  `c04.arith <op> <srcA> <srcB>`                over `XVal`: a sample divided by zero is printed `inf` / `-inf` / `nan`
   `c04.overwins <src> <where> [a,b;…]`        the arrays `downsampled_over` hands to `reduce`, with their timestamps
   `c04.bywins <src> <k>`                     the rows `downsampled_by` hands to `reduce(axis=1)`
   `c04.byby <src> <reduce> <k1> <k2>`         `downsampled_by(k1)` then `downsampled_by(k2)`
@@ -678,8 +764,8 @@ def handle : List String → Option String
     let (a, rest) ← mkSrc? rest
     let (b, rest) ← mkSrc? rest
     if rest ≠ [] then none
-    else match arith o a b with
-      | .ok r => some ("ok " ++ showSamples r.samples)
+    else match arithX o a.toX b.toX with
+      | .ok r => some ("ok " ++ showXSamples r.samples)
       | .error e => some (showErr e)
   | "c04.neg" :: rest => do
     let (a, rest) ← mkSrc? rest
@@ -689,17 +775,17 @@ def handle : List String → Option String
     let x ← rat? x
     let rev ← (match rev with | "0" => some false | "1" => some true | _ => none)
     let (a, rest) ← mkSrc? rest
-    if rest ≠ [] then none else some ("ok " ++ showSamples (arithScalar o a x rev).samples)
+    if rest ≠ [] then none else some ("ok " ++ showXSamples (arithScalarX o a.toX x rev).samples)
   | "c04.arith3" :: o1 :: o2 :: rest => do
     let o1 ← op? o1; let o2 ← op? o2
     let (a, rest) ← mkSrc? rest
     let (b, rest) ← mkSrc? rest
     let (c, rest) ← mkSrc? rest
     if rest ≠ [] then none
-    else match arith o1 a b with
+    else match arithX o1 a.toX b.toX with
       | .error e => some (showErr e)
-      | .ok r => match arith o2 r c with
-        | .ok r => some ("ok " ++ showSamples r.samples)
+      | .ok r => match arithX o2 r c.toX with
+        | .ok r => some ("ok " ++ showXSamples r.samples)
         | .error e => some (showErr e)
   | ["c04.repair", d] => do
     let d ← intList? d
